@@ -414,8 +414,14 @@ func (w *world) step(u *upd, tag string) (*stepRec, error) {
 	// ---- property oracle ----
 	switch {
 	case tag == "dup" || tag == "restate":
+		// "applied successfully" is demanded of VALID updates only (every object the update names is known and not
+		// protected in the state it is delivered to); a re-delivery that names an unknown or the protected mailbox
+		// may be acknowledged with an error — it still gets exactly one ack (checked above) and must change nothing
+		if ack != "ok" && exp.Valid {
+			fail("replay-not-ok", fmt.Sprintf("re-delivered valid update acknowledged with %s %s", ack, ackErr))
+		}
 		if ack != "ok" {
-			fail("replay-not-ok", fmt.Sprintf("re-delivered update acknowledged with %s %s", ack, ackErr))
+			res.Count("replay-of-invalid-update-refused")
 		}
 		if unchanged != "" {
 			fail("replay-changed-view", "re-delivery changed the view: "+unchanged)
